@@ -451,27 +451,31 @@ def run_harness(ctx, h):
 # replay
 # --------------------------------------------------------------------------
 def get_trace_values(ctx, h, prop_id):
+    """values the solver chose for the vf_uN() calls, in call order.  First without --slice-formula (every call is in
+    the trace); if that run has no verdict (memory/time), with it: calls outside the cone of influence are then
+    missing from the trace, so the list is only a candidate - which is all it ever is: a counterexample counts only
+    when the natively compiled harness fails on it."""
     outdir = ctx.scratch.sub(h.name)
     gb = os.path.join(outdir, h.name + ".gb")
-    cmd = cbmc_cmd(h, gb, getattr(h, "_unwindset", []) + ["--trace", "--property", prop_id])
-    cmd = [c for c in cmd if c != "--slice-formula"]
-    rc, out, err, wall, _ = sh(cmd, timeout=max(h.timeout, 600), mem_gb=h.mem_gb)
-    results, status, msgs = parse_cbmc_json(out)
-    vals = []
-    if not results:
-        return None
-    for r in results:
-        if r["property"] != prop_id or "trace" not in r:
-            continue
-        for s in r["trace"]:
-            if s.get("stepType") != "assignment":
+    base = cbmc_cmd(h, gb, getattr(h, "_unwindset", []) + ["--trace", "--property", prop_id])
+    for cmd in ([c for c in base if c != "--slice-formula"], base):
+        rc, out, err, wall, _ = sh(cmd, timeout=max(h.timeout, 600), mem_gb=h.mem_gb)
+        results, status, msgs = parse_cbmc_json(out)
+        for r in results or []:
+            if r["property"] != prop_id or "trace" not in r:
                 continue
-            lhs = s.get("lhs", "")
-            m = re.match(r"goto_symex\$\$return_value\$\$vf_u(8|16|32|64)$", lhs)
-            if m:
-                b = (s.get("value") or {}).get("binary")
-                vals.append(int(b, 2) if b else 0)
-        return vals
+            vals = []
+            for s in r["trace"]:
+                if s.get("stepType") != "assignment":
+                    continue
+                lhs = s.get("lhs", "")
+                m = re.match(r"goto_symex\$\$return_value\$\$vf_u(8|16|32|64)$", lhs)
+                if m:
+                    b = (s.get("value") or {}).get("binary")
+                    vals.append(int(b, 2) if b else 0)
+            return vals
+        if "--slice-formula" not in base:
+            break
     return None
 
 
